@@ -46,7 +46,7 @@ def r1(ctx, R):
     inc = q.calls(fi, name="_increment_backups")
     wr = [c for c in q.calls(fi, name="write_model")
           if isinstance(c.func.value, ast.Call) and call_name(c.func.value) == "ModelWriter"]
-    R.need(len(wr) == 1, "expected one ModelWriter(...).write_model() call, found %d" % len(wr))
+    R.must(len(wr) == 1, "expected one ModelWriter(...).write_model() call, found %d" % len(wr))
     R.slot("write_model", {"rotate": [norm(i) for i in inc], "write": norm(wr[0])[:120]})
     R.inst("write_model: rotation dominates writing")
     if not inc or not q.dominated(fi, inc, wr[0]):
@@ -106,7 +106,7 @@ def r1(ctx, R):
     for spec in ("Model.write", "Model.zip"):
         f2 = ctx.func(spec)
         cs = q.calls(f2, name="write_model")
-        R.need(len(cs) == 1, "%s does not call write_model once" % spec)
+        R.must(len(cs) == 1, "%s does not call write_model once" % spec)
         R.inst("%s: forwards backup unchanged" % spec)
         kw = q_kw(cs[0], "backup")
         if not (isinstance(kw, ast.Name) and kw.id == "backup"):
@@ -137,9 +137,9 @@ def r2(ctx, R):
     rec = q.calls(fi, name="_increment_backups")
     ren = q.calls(fi, name=("rename", "replace", "move"))
     dels = q.calls(fi, name=("rmtree", "unlink", "rmdir", "remove"))
-    R.need(len(rec) == 1, "expected one recursive call, found %d" % len(rec))
-    R.need(len(ren) == 1, "expected one rename call, found %d" % len(ren))
-    R.need(dels, "no deletion call found")
+    R.must(len(rec) == 1, "expected one recursive call, found %d" % len(rec))
+    R.must(len(ren) == 1, "expected one rename call, found %d" % len(ren))
+    R.must(dels, "no deletion call found")
     R.slot("_increment_backups", {"recurse": norm(rec[0]), "rename": norm(ren[0]),
                                   "delete": [norm(d) for d in dels]})
     R.inst("recursive call passes nth + 1")
@@ -218,7 +218,7 @@ def r3(ctx, R):
         for spec in ("ModelWriter.write_model", "ModelReader.read_model"):
             fi = ctx.func("%s:%s" % (ser, spec))
             sets = _flag_sets(fi)
-            R.need(any(not r for _, _, r in sets), "no serializing flag set in %s:%s" % (ser, spec))
+            R.must(any(not r for _, _, r in sets), "no serializing flag set in %s:%s" % (ser, spec))
             for st, tgt, is_reset in sets:
                 if is_reset:
                     continue
@@ -259,7 +259,7 @@ def r4(ctx, R):
     R.need(len(reads) >= 4, "expected >=4 reads of ModelWriter.root, found %d" % len(reads))
     pm_cache = {}
     moves = [c for c in q.calls(wm, name="move") if call_recv(c) == "shutil"]
-    R.need(len(moves) == 1, "expected one shutil.move in write_model, found %d" % len(moves))
+    R.must(len(moves) == 1, "expected one shutil.move in write_model, found %d" % len(moves))
     move = moves[0]
     for f, n in reads:
         R.inst("read of .root at %s" % f.loc(n))
@@ -295,17 +295,17 @@ def r4(ctx, R):
         R.bad(wm, move, "final move is not temp_root -> root")
     # --- is_zip re-pointing
     tr = [t for t in q.tries(wm) if t.finalbody]
-    R.need(len(tr) == 1, "write_model: expected one try/finally")
+    R.must(len(tr) == 1, "write_model: expected one try/finally")
     tr = tr[0]
     tmpdirs = [n for n in walk_local(wm.node) if isinstance(n, ast.Assign)
                and isinstance(n.value, ast.Call) and dotted(n.value.func) == "tempfile.TemporaryDirectory"]
-    R.need(len(tmpdirs) == 1, "write_model: TemporaryDirectory() assignment not found")
+    R.must(len(tmpdirs) == 1, "write_model: TemporaryDirectory() assignment not found")
     tmpvar = tmpdirs[0].targets[0].id if isinstance(tmpdirs[0].targets[0], ast.Name) else None
     rep = {}
     for st, t in q.attr_writes(wm, attr=("temp_root", "work_dir"), recv="self"):
         rep.setdefault(t.attr, []).append(st)
     first_zip = [n.id for n in cfg.nodes if n.kind == "test" and norm(n.ast) == "self.is_zip"]
-    R.need(first_zip, "no test of self.is_zip in write_model")
+    R.must(first_zip, "no test of self.is_zip in write_model")
     writes = [c for c in q.calls(wm) if (call_recv(c) == "ziputil" and call_name(c) in
                                           ("make_root", "write_str", "write_str_utf8", "write_file",
                                            "write_file_utf8", "copy_file", "archive_dir", "pandas_to_pickle"))
@@ -372,13 +372,13 @@ def r4(ctx, R):
         R.bad(wm, arch[0], "archive_dir does not archive work_dir into temp_root")
     R.inst("write_ios writes under work_dir")
     wi = q.calls(wm, name="write_ios")
-    R.need(len(wi) == 1, "write_ios call not found")
+    R.must(len(wi) == 1, "write_ios call not found")
     rt = q_kw(wi[0], "root") or (wi[0].args[1] if len(wi[0].args) > 1 else None)
     if rt is None or norm(rt) != "self.work_dir":
         R.bad(wm, wi[0], "IO files are not written under work_dir")
     R.inst("make_root creates temp_root")
     mr = q.calls(wm, name="make_root")
-    R.need(len(mr) == 1, "make_root call not found")
+    R.must(len(mr) == 1, "make_root call not found")
     if not mr[0].args or norm(mr[0].args[0]) != "self.temp_root":
         R.bad(wm, mr[0], "make_root does not create the temporary root")
     # cleanup in finally
@@ -412,9 +412,9 @@ def r5(ctx, R):
         fi = ctx.func("%s:ModelReader.read_model" % ser)
         cfg = fi.cfg
         inner = q.calls(fi, name=("_read_model_inner", "parse_dir"))
-        R.need(inner, "%s: no _read_model_inner/parse_dir call in read_model" % ser)
+        R.must(inner, "%s: no _read_model_inner/parse_dir call in read_model" % ser)
         tr = [t for t in q.tries(fi) if any(inner[0] in list(ast.walk(s)) for s in t.body)]
-        R.need(tr, "%s: reading is not inside a try" % ser)
+        R.must(tr, "%s: reading is not inside a try" % ser)
         t = tr[0]
         R.inst("%s read_model: catch-all handler closes self.model and re-raises" % ser)
         hs = [h for h in t.handlers if q.is_catch_all(h)]
@@ -454,7 +454,7 @@ def r5(ctx, R):
         for f in Rd.methods.values():
             for c in q.calls(f, name="new_model"):
                 news.append((f, c))
-        R.need(news, "%s: ModelReader never calls new_model" % ser)
+        R.must(news, "%s: ModelReader never calls new_model" % ser)
         for f, c in news:
             R.inst("%s %s: new model is recorded on the reader by the creating statement" % (ser, f.short))
             st = c
@@ -506,7 +506,7 @@ def r5(ctx, R):
     rm = mi.funcs.get("read_model")
     R.need(rm is not None, "serialize.read_model not found")
     rd = q.calls(rm, name="read_model")
-    R.need(len(rd) == 1, "serialize.read_model: reader call not found")
+    R.must(len(rd) == 1, "serialize.read_model: reader call not found")
     R.inst("serialize.read_model: model.path assigned after reading")
     for st, t in q.attr_writes(rm, attr="path"):
         if not q.dominated(rm, rd, st):
